@@ -81,6 +81,9 @@ SetFromText(ps, f, text) ==
       cbBad == hasCb /\ ps.pc.failParse = cn1
       v     == IF hasCb THEN (IF cbBad THEN Bad ELSE CbValue(o.type, text, cn1))
                ELSE Conv(o.type, text)
+      (* a plain string option takes any text (which may be a byte sequence in the
+         byte-level models: never compared with the Bad marker) *)
+      isBad == IF hasCb THEN cbBad ELSE (o.type # "str" /\ v = Bad)
       log1  == IF hasCb THEN Append(ps.cblog, [k |-> "parse", o |-> o.name, v |-> text, vals |-> <<>>])
                ELSE ps.cblog
       (* pointers the store lets go of: dropped pristine defaults, or the overwritten scalar *)
@@ -88,7 +91,7 @@ SetFromText(ps, f, text) ==
                ELSE IF o.reset THEN o.vals
                ELSE IF ~IsList(o) /\ o.vals # <<>> THEN <<o.vals[1]>> ELSE <<>>
       ps1   == [ps EXCEPT !.cn = cn1, !.cblog = log1]
-  IN IF v = Bad THEN [ok |-> FALSE, ps |-> FailD(ps1), f |-> f]
+  IN IF isBad THEN [ok |-> FALSE, ps |-> FailD(ps1), f |-> f]
      ELSE [ok |-> TRUE,
            ps |-> [ps1 EXCEPT !.freed = @ \o gone],
            f  |-> SetOpt(f, StoreValue(o, v))]
